@@ -3,7 +3,7 @@ import io
 import types
 
 from .. import obs as O
-from .common import Contract, ansi_values, history, run_cases, tier_sizes, is_ansi, FLAG_COMBOS
+from .common import Contract, ansi_values, history, run_cases, tier_sizes, is_ansi, FLAG_COMBOS, esc_seam_values
 from ..gen import gen_ansi_input, gen_settings, gen_text
 
 PROP = 'C13'
@@ -281,7 +281,13 @@ def drive(ctx, mon, tier, only_case=None):
     exercised = set()
 
     def body(rng, ex, case):
-        hg = history(L, rng, ex, rng.randint(1, 6), sz['maxlen'], 'mixed' if rng.random() < 0.25 else 'wf', WEIGHTS)
+        hg = history(L, rng, ex, rng.randint(1, 6), sz['maxlen'], 'mixed' if rng.random() < 0.25 else 'wf', WEIGHTS,
+                     esc=rng.random() < 0.1)
+        if rng.random() < 0.25:
+            # receivers whose base text holds a literal escape sequence (both classes must treat it as text)
+            with mon.quiet():
+                for v in esc_seam_values(L, rng, 2):
+                    ex.pool.append(v)
         for _ in range(4):
             ctor_twin(ctx, mon, rng, ex)
         for _ in range(14):
